@@ -9,7 +9,7 @@ CONSTANTS
   InitBases <- MCInitBases
   Crafts <- CraftsQuick
   Perms = {"owner", "writer", "anyone"}
-  Thirds = {"same", "perm", "addr"}
+  Thirds = {"same", "perm", "addr", "owner"}
 VIEW MCView
 INVARIANTS MergeCommutes MergeAssoc MergeIdem Converge ClosureModKnown
 PROPERTIES Authorised
